@@ -179,6 +179,15 @@ class Mini2(Mini):
         first = [] if "staticmethod" in decos or selfobj is None else [selfobj]
         return self.run_function(fn, first + list(args), kwargs, selfobj)
 
+    def run_top(self, fn, args, kwargs=None, selfobj=None):
+        """run_function for the outermost call: a `raise` reached in the model is an unknown idiom."""
+        try:
+            return self.run_function(fn, args, kwargs or {}, selfobj)
+        except _Raise as r:
+            raise Unsupported(f"{self.what}: the model run ends in `{unparse(r.node)[:80]}`")
+        except RecursionError:
+            raise Unsupported(f"{self.what}: recursion in the model run")
+
     def run_function(self, fn, args, kwargs, selfobj=None):
         """Bind `args/kwargs` to the parameters of `fn` (FuncInfo) and run its body in this model."""
         if len(self.frames) >= self.max_depth:
